@@ -11,7 +11,7 @@ EXPLANATION = (
     "the empty cause set must be accepted (keeps the probe honest)."
 )
 ASSUMPTIONS = ["bounds: histories of <= 4 operations, 2 pool classes"]
-BUDGET = {"quick": 150, "thorough": 1800}
+BUDGET = {"quick": 150, "thorough": 900}
 MON = ["C09"]
 P = ["probe_reject"]
 
